@@ -183,6 +183,18 @@ def _check_artifact(case, ctx, artifact):
     if not good:
         ctx.violation("artifact.model", f"offsets reported {offs}, headers satisfying u32(header)==offset+16: {truth} (start={s}, maxrange={maxrange})", case)
         return
+    if start is not None:
+        # the same scan once more on the same file object, whose position the first scan (and a reading consumer) has moved:
+        # an explicit start offset - 0 included - does not depend on where the file object happens to be
+        try:
+            fh.seek(min(len(data), 1 + len(data) // 2))
+            again = [g.offset for g in artifact.iter_artifactkit_payloads(fh, start_offset=start, maxrange=maxrange)]
+        except Exception as e:  # noqa: BLE001
+            ctx.violation("artifact.exception", f"second scan of the same file object: {type(e).__name__}: {e}", case)
+            return
+        if again != offs:
+            ctx.violation("artifact.model", f"a second scan of the same file object (start={start}, maxrange={maxrange}) reports {again}, the first one {offs}", case)
+            return
     for g in got:
         p = g.offset
         size = int.from_bytes(data[p + 4 : p + 8], "little")
